@@ -8,7 +8,7 @@ Oracle at quiescence: every Deferred fired exactly once (answered-before-the-cut
 result, all others TorDisconnectError), every when_disconnected() notified exactly once,
 nothing written after the loss, no exception escapes.
 """
-from .. import ctl, gen
+from .. import contracts, ctl, gen
 from ..refs import reply as R
 
 PROPERTY = "C03"
@@ -201,10 +201,20 @@ def run_case(case, rec):
         if (clause, icls) not in seen:
             seen.add((clause, icls))
             rec.violation(clause, icls, detail, case)
+    contracts.drain(rec, case)
     rec.case(case, nontrivial=obligations > 0)
 
 
 def run_shard(spec, rec):
+    if int(spec.get("shard", 0)) % 4 == 0:      # contracts on a quarter of the shards (cost ~3x)
+        contracts.install_protocol()
+    try:
+        _run_shard(spec, rec)
+    finally:
+        contracts.report(rec)
+
+
+def _run_shard(spec, rec):
     mode = spec["mode"]
     if mode == "every-offset":
         i = 0
@@ -234,6 +244,7 @@ def run_shard(spec, rec):
 
 
 def replay(case, rec):
+    contracts.install_protocol()
     run_case(case, rec)
 
 
